@@ -991,10 +991,15 @@ class BuiltinsMixin:
             conds.append(z3.And(*cs))
             shapes.append(parts)
         if maxsplit < 0:
-            # more parts than the limit
-            conds.append(z3.BoolVal(True))  # refined below by excluding the others
-            others = z3.And(*[z3.Not(c) for c in conds[:-1]])
-            conds[-1] = others
+            # more parts than the limit: stated positively (first `limit` parts are separator-free, the rest is
+            # arbitrary) -- the negation of the other cases would leave their part variables free
+            many = [z3.String(f"{base}.many.{j}") for j in range(limit + 1)]
+            pieces = []
+            for j, p in enumerate(many):
+                if j:
+                    pieces.append(zsep)
+                pieces.append(p)
+            conds.append(z3.And(e == z3.Concat(*pieces), *[z3.Not(z3.Contains(p, zsep)) for p in many[:-1]]))
         k = self.run.fork(conds, label="split parts")
         if k >= len(shapes):
             # more parts than the limit: represented by limit+1 unconstrained parts (assumption, stated in the
